@@ -190,6 +190,6 @@ pub fn def() -> PropertyDef {
             .into(),
         assumptions: vec!["size bound bits*capacity <= 1024 (quick F) / 256 (quick R)".into()],
         exhaustive: false,
-        subs: vec![cap_sub::<F>((2500, 80_000)), cap_sub::<R>((250, 4000))],
+        subs: vec![cap_sub::<F>((10_000, 120_000)), cap_sub::<R>((800, 6000))],
     }
 }
